@@ -292,6 +292,14 @@ def run_case(case, oracle="plain"):
                 exp = D.derived_expectations(dev, fam, sensors, gconst, alts)
                 for sid, want in D.pair_expectations(sensors, data).items():
                     stats["values_checked"] += 1
+                    if isinstance(want, tuple) and want[0] == "bitmap":
+                        if data[sid] != want[2]:
+                            key = f"C13:{fam}:pair:{sid}"
+                            if key not in {v["key"] for v in violations}:
+                                violations.append(viol(key, f"{fam}/{var}/{tr} fill={case['fill']} k={k}: {sid} = {data[sid]!r} "
+                                                       f"but the code {want[1]} of the same result is {data[want[1]]!r} "
+                                                       f"(its set bits give {want[2]!r})"))
+                        continue
                     if data[sid] != want:
                         key = f"C13:{fam}:pair:{sid}"
                         if key not in {v["key"] for v in violations}:
